@@ -2452,7 +2452,7 @@ def _oracle_exp1(s, fails):
         return so
 
     base = run("float64", F, d0, 1e-9)
-    if s["dtype"] != "float64":
+    if s["dtype"] != "float64" and base is not None:
         # the same whole-numbered force samples handed over as an integer / single-precision array
         run("force-dtype-" + s["dtype"], F.astype(s["dtype"]), d0, 1e-9)
     if base is not None and nt >= 2:
